@@ -101,6 +101,41 @@ pub fn parse(text: &str) -> Result<Program, Outcome> {
     }
 }
 
+/// Parses through the file loader (`parse_main_file`), as the real binary does. The text
+/// goes through a scratch file private to the calling thread.
+pub fn parse_via_file(text: &str) -> Result<Program, Outcome> {
+    use std::hash::{Hash, Hasher};
+    let mut h = std::collections::hash_map::DefaultHasher::new();
+    std::thread::current().id().hash(&mut h);
+    let dir = format!(
+        "{}/sim/target/scratch",
+        std::env::var("VERIF_DIR").unwrap_or_else(|_| "/verif".into())
+    );
+    let _ = std::fs::create_dir_all(&dir);
+    let path = format!("{}/p{}-{:016x}.bas", dir, std::process::id(), h.finish());
+    if std::fs::write(&path, text.as_bytes()).is_err() {
+        return parse(text);
+    }
+    let f = match std::fs::File::open(&path) {
+        Ok(f) => f,
+        Err(_) => return parse(text),
+    };
+    let r = match catch_unwind(AssertUnwindSafe(|| rusty_parser::parse_main_file(f))) {
+        Ok(Ok(p)) => Ok(p),
+        Ok(Err(e)) => Err(Outcome::ParseError(format!("{:?}", e))),
+        Err(_) => {
+            let (message, location) = take_panic();
+            Err(Outcome::Panic {
+                stage: "parse",
+                message,
+                location,
+            })
+        }
+    };
+    let _ = std::fs::remove_file(&path);
+    r
+}
+
 pub struct RunResult {
     pub outcome: Outcome,
     pub monitor: MonitorReport,
